@@ -170,6 +170,7 @@ pub fn run_job(
                     println!("  step {i:4} task {:3} at {:<18} runnable {} -> {}", r.task, crate::point_name(r.point as u32), r.runnable, r.chosen);
                 }
                 if let Some(r) = &res {
+                    println!("  extra: {}", r.extra);
                     println!("  trace: {:?}", r.trace);
                     if let Some(o) = &r.obs {
                         println!("  obs: error={:?} panic={:?} outcomes={}", o.error, o.panic, o.outcomes.len());
